@@ -5,3 +5,7 @@ import HypnoModel.Model.Geqdsk
 import HypnoModel.Drv.Util
 import HypnoModel.Drv.C17
 import HypnoModel.Lemmas.Geqdsk
+import HypnoModel.Model.ParMap
+import HypnoModel.Drv.C13
+import HypnoModel.Props.C17
+import HypnoModel.Props.C13
